@@ -321,7 +321,12 @@ def run_group(g, tier, seed, rec):
             U0, V0 = _initial_fields(init, coords, Lx, Ly, isbc, amp, vamp, seed)
             f0 = f_int(U0, 0.0)
             A0 = onp.zeros(nd)
-            A0[unk] = ref.initial_acceleration(Muu, f0[unk])
+            try:
+                A0[unk] = ref.initial_acceleration(Muu, f0[unk])
+            except onp.linalg.LinAlgError:
+                # the consistent mass of an exactly integrated Lagrange basis is positive definite
+                rec.violation(fkey("mass-matrix-singular", "order=%d" % order), root + ";hist=", dict(base_detail, M=M))
+                continue
             A0 = A0.reshape(n, 2)
             ke0 = float(dyn.compute_output_kinetic_energy(jnp.array(V0)))
             se0 = float(dyn.compute_output_strain_energy(jnp.array(U0), iv, 0.0))
@@ -495,7 +500,7 @@ def _check(cx, rx, st, cid, detail, record):
             rec.track_max("rigid_translation_rel(trap,le)", worst)
             if not worst <= TOL_REL:
                 viol.append((fkey("rigid-translation-not-exact", by_mat + "|" + by_nm),
-                             {"t": t2, "rel_err_U": eu, "rel_err_V": evv, "rel_A": ea, "U": Un, "V": Vn, "A": An}))
+                             {"t": t2, "V0": V0, "rel_err_U": eu, "rel_err_V": evv, "rel_A": ea}))
         else:
             rec.track_max("rigid_translation_rel(outside stated scope)", worst)
 
